@@ -35,6 +35,7 @@ macro_rules! string_entry {
             clone: $c, serde: $s, model: $m,
             flags: { stringy: true $(, $flag: $fv)* },
             reserve: $res,
+            owned: yes,
             canon: "&String" => |v| v,
             forms: [
                 "&str" => |s, v, aux| s.put(v.as_str()),
@@ -101,6 +102,7 @@ macro_rules! owned_entry {
             clone: $c, serde: $s, model: $m,
             flags: { $($flag: $fv),* },
             reserve: $res,
+            owned: yes,
             canon: "&Vec" => |v| v,
             forms: [
                 "&[T]" => |s, v, aux| s.put(v.as_slice()),
@@ -188,6 +190,7 @@ macro_rules! mirror_entry {
             clone: yes, serde: yes, model: yes,
             flags: { $($flag: $fv),* },
             reserve: [(|v| v), (|v| *v)],
+            owned: yes,
             canon: "&T" => |v| v,
             forms: [
                 "T" => |s, v, aux| s.put(*v),
@@ -233,6 +236,7 @@ macro_rules! vec_entry {
             clone: yes, serde: yes, model: yes,
             flags: { idx_is_usize: true, structural: true },
             reserve: (|v| v),
+            owned: yes,
             canon: "&T" => |v| v,
             forms: [
                 "T" => |s, v, aux| s.put(v.clone()),
@@ -331,6 +335,7 @@ entry! { EOptionString, "option<string>", OptionRegion<StringRegion>,
     clone: yes, serde: yes, model: yes,
     flags: { stringy: true, structural: true },
     reserve: [(|v| v), (|v| v.as_deref()), (|v| v.as_ref())],
+    owned: yes,
     canon: "&Option<String>" => |v| v,
     forms: [
         "Option<String>" => |s, v, aux| s.put(v.clone()),
@@ -355,6 +360,7 @@ entry! { EOptionVecU32, "option<vec<u32>>", OptionRegion<Vec<u32>>,
     clone: yes, serde: yes, model: yes,
     flags: { structural: true },
     reserve: (|v| v),
+    owned: yes,
     canon: "&Option<u32>" => |v| v,
     forms: [
         "Option<u32>" => |s, v, aux| s.put(*v),
@@ -366,6 +372,7 @@ entry! { EResultVecVec, "result<vec<u32>,vec<u8>>", ResultRegion<Vec<u32>, Vec<u
     clone: yes, serde: yes, model: yes,
     flags: { structural: true },
     reserve: (|v| v),
+    owned: yes,
     canon: "&Result<u32,u8>" => |v| v,
     forms: [
         "Result<u32,u8>" => |s, v, aux| s.put(*v),
@@ -399,6 +406,7 @@ entry! { EOptionSliceU8, "option<slice<mirror<u8>>>", OptionRegion<SliceRegion<M
     clone: yes, serde: yes, model: yes,
     flags: { structural: true },
     reserve: (|v| v),
+    owned: yes,
     canon: "&Option<Vec<u8>>" => |v| v,
     forms: [
         "Option<Vec<u8>>" => |s, v, aux| s.put(v.clone()),
@@ -425,6 +433,7 @@ entry! { ETupleSliceOption, "tuple(slice<mirror<u8>>,option<string>)", TupleABRe
     clone: yes, serde: yes, model: yes,
     flags: { stringy: true, structural: true },
     reserve: (|v| v),
+    owned: yes,
     canon: "&(Vec<u8>,Option<String>)" => |v| v,
     forms: [
         "owned" => |s, v, aux| s.put(v.clone()),
@@ -437,6 +446,7 @@ entry! { EResultStringU8, "result<string,mirror<u8>>", ResultRegion<StringRegion
     clone: yes, serde: yes, model: yes,
     flags: { stringy: true, structural: true },
     reserve: [(|v| v), (|v| v.as_ref().map(|x| x.as_str()).map_err(|e| *e)), (|v| v.as_ref())],
+    owned: yes,
     canon: "&Result" => |v| v,
     forms: [
         "Result" => |s, v, aux| s.put(v.clone()),
@@ -450,6 +460,7 @@ entry! { EResultOwnedString, "result<owned<u8>,string>", ResultRegion<OwnedRegio
     clone: yes, serde: yes, model: yes,
     flags: { stringy: true, structural: true },
     reserve: (|v| v),
+    owned: yes,
     canon: "&Result" => |v| v,
     forms: [
         "Result" => |s, v, aux| s.put(v.clone()),
@@ -472,6 +483,7 @@ entry! { ETuple1String, "tuple(string)", TupleARegion<StringRegion>,
     clone: yes, serde: yes, model: yes,
     flags: { stringy: true, structural: true },
     reserve: (|v| v),
+    owned: yes,
     canon: "&(String,)" => |v| v,
     forms: [
         "(String,)" => |s, v, aux| s.put(v.clone()),
@@ -485,6 +497,7 @@ entry! { ETuple2, "tuple(mirror<u8>,string)", TupleABRegion<MirrorRegion<u8>, St
     clone: yes, serde: yes, model: yes,
     flags: { stringy: true, structural: true },
     reserve: [(|v| v), (|v| (v.0, v.1.as_str())), (|v| (&v.0, &v.1))],
+    owned: yes,
     canon: "&(u8,String)" => |v| v,
     forms: [
         "(u8,String)" => |s, v, aux| s.put(v.clone()),
@@ -542,6 +555,7 @@ macro_rules! slice_entry {
             clone: $c, serde: $s, model: $m,
             flags: { $($flag: $fv),* },
             reserve: $res,
+            owned: yes,
             canon: "&Vec<X>" => |v| v,
             forms: [
                 "&[X]" => |s, v, aux| s.put(v.as_slice()),
@@ -686,6 +700,10 @@ columns_entry!(EColumnsOwnedU8, "columns<owned<u8>>", ColumnsRegion<OwnedRegion<
 columns_entry!(EColumnsSliceU8, "columns<slice<mirror<u8>>>", ColumnsRegion<SliceRegion<MirrorRegion<u8>>, IO>, clone: yes, serde: yes, model: yes, flags: {});
 columns_entry!(EColumnsColumns, "columns<columns<mirror<u8>>>", ColumnsRegion<ColumnsRegion<MirrorRegion<u8>, IO>, IO>, clone: yes, serde: yes, model: yes, flags: {});
 columns_entry!(EColumnsVecU32, "columns<vec<u32>>", ColumnsRegion<Vec<u32>, IO>, clone: yes, serde: yes, model: yes, flags: {});
+columns_entry!(EColumnsHuffman, "columns<huffman<u8>>", ColumnsRegion<HuffmanContainer<u8>, IO>, clone: yes, serde: no, model: no,
+    flags: { coded: true, can_heap: false, can_reserve_regions: false });
+columns_entry!(EColumnsStringDict, "columns<string<codec-dict>>", ColumnsRegion<StringRegion<DictCodec>, IO>, clone: no, serde: no, model: no,
+    flags: { coded: true, stringy: true });
 columns_entry!(EColumnsOptionString, "columns<option<string>>", ColumnsRegion<OptionRegion<StringRegion>, IO>, clone: yes, serde: yes, model: yes, flags: { stringy: true });
 
 entry! { EColumnsCollapsePairsString, "columns<collapse<pairs<string>>>", ColumnsRegion<Collapse<Pairs<StringRegion, IO>>, IO>,
